@@ -224,6 +224,24 @@ class GattWorld:
             raise RuntimeError(f'expected one new server EATT channel, got {len(new)}')
         return client, new[0]
 
+    def open_eatt_many(self, c_conn, s_conn, mtu, count):
+        """Open `count` enhanced bearers with ONE Client.connect_eatt call; returns (clients, server channels), the k-th
+        server channel being the peer end of the k-th client's bearer."""
+        from bumble import l2cap
+        from bumble.gatt_client import Client
+
+        mgr = self.server_dev.l2cap_channel_manager
+        before = set(mgr.le_coc_channels.get(s_conn.handle, {}).values())
+        clients = self.world.run(Client.connect_eatt(c_conn, l2cap.LeCreditBasedChannelSpec(psm=EATT_PSM, mtu=mtu), count))
+        if not isinstance(clients, list):
+            clients = [clients]
+        self.world.settle()
+        new = [c for c in mgr.le_coc_channels.get(s_conn.handle, {}).values() if c not in before]
+        if len(new) != count or len(clients) != count:
+            raise RuntimeError(f'expected {count} new server EATT channels and clients, got {len(new)} / {len(clients)}')
+        by_peer_cid = {c.destination_cid: c for c in new}
+        return clients, [by_peer_cid[cl.bearer.source_cid] for cl in clients]
+
     # -- taps ------------------------------------------------------------------------
     def tap_device(self, dev, fn):
         """fn(connection_handle, pdu) -> True to let the ATT PDU go out, False to hold it."""
